@@ -118,7 +118,7 @@ func getter(iface, name string, recv *Term, unsigned bool) *Term {
 func init() {
 	propertyRules["C03"] = []ruleFn{ruleSendPReq, ruleSendPResp, ruleOnceCommit, ruleCommitClear, ruleCVLock, ruleViewLock, ruleViewMono, ruleEpochOwner, ruleStoreBeforeSend, ruleRetransmit}
 	propertyExplain["C03"] = "Per message kind, every typed broadcast site (call of the broadcast wrapper whose argument's MessageType is resolved by send-site typing) is proven to be behind the 'not said yet' guard on every path from every API entry; own Commit/PreCommit are constructed only when the own slot is empty and those tables are cleared only by the height reset; ChangeView sends and view changes are behind the commit lock; the view only increases. Decides the per-node structural causes of non-equivocation; history-wide uniqueness across restarts and peers' recovery compaction are not decided."
-	propertyRules["C01"] = []ruleFn{ruleAccept, ruleCVLock, ruleViewLock, ruleViewQuorum, ruleArithF, ruleArithM, ruleDefs}
+	propertyRules["C01"] = []ruleFn{ruleAccept, ruleVerifyOnStore, ruleOnceCommit, ruleCVLock, ruleViewLock, ruleViewQuorum, ruleArithF, ruleArithM, ruleDefs}
 	propertyExplain["C01"] = "Composite of the four per-node mechanisms agreement rests on: acceptance behind an M-of-N current-view commit quorum (G-ACCEPT), commit lock on ChangeView sends and view changes (G-CV-LOCK, G-VIEW-LOCK), view change behind an M-of-N ChangeView quorum (G-VIEW-QUORUM), F=(N-1) div 3 and M=N-F in affine normal form (A-F, A-M). It does NOT decide agreement itself, which is a property of several nodes' joint histories under an adversarial scheduler."
 }
 
